@@ -7,6 +7,7 @@ import (
 	"bufio"
 	"encoding/hex"
 	"fmt"
+	"hash/fnv"
 	"os"
 	"strconv"
 	"strings"
@@ -61,7 +62,14 @@ func run(line string) (out string) {
 	if !ok {
 		return "bad-op"
 	}
-	return op(f[1:])
+	res := op(f[1:])
+	if len(res) > 16<<20 {
+		// a (mutated) implementation can produce absurdly large results; keep the orchestrator alive
+		h := fnv.New64a()
+		h.Write([]byte(res))
+		return fmt.Sprintf("oversize:%d:%x", len(res), h.Sum64())
+	}
+	return res
 }
 
 func main() {
